@@ -41,6 +41,8 @@ struct St {
     yielded: usize,
     /// number of items the source is allowed to hand out
     source_upto: usize,
+    /// value of `source_upto` the last time the join polled the source
+    source_seen_upto: usize,
     source_waker: Option<Waker>,
     source_polls_pending: u64,
     /// forward dependency distance: item i is ready only when item i+dep has been polled (0 = none)
@@ -140,6 +142,7 @@ impl Stream for Source {
     fn poll_next(mut self: Pin<&mut Self>, cx: &mut Context<'_>) -> Poll<Option<Item>> {
         let st = StdArc::clone(&self.st);
         let mut s = st.lock().unwrap();
+        s.source_seen_upto = s.source_upto;
         if self.next >= s.n {
             return Poll::Ready(None);
         }
@@ -229,7 +232,9 @@ impl Scenario for SjScenario {
             completed: vec![false; n],
             dep,
             window: w,
-            slack: usize::from(mt),
+            // the spawning implementation fills its window across several scheduling steps (spawn is one), so a task may be
+            // polled before its successors exist: there the per-poll bound is not meaningful, the bound at Pending returns is
+            slack: if mt { usize::MAX / 2 } else { 0 },
             min_inflight_seen: usize::MAX,
             // the parallel join takes an iterator: everything is available at once
             source_upto: if variant == "join" { 0 } else { n },
@@ -291,9 +296,29 @@ impl Scenario for SjScenario {
                         let result: Result<Vec<usize>, usize> = match variant.as_str() {
                             "join" => {
                                 let src = Source { next: 0, st: StdArc::clone(&st), errs: errv };
-                                let mut s = seq_join(window, src);
+                                let mut s = std::pin::pin!(seq_join(window, src));
                                 let mut v = Vec::new();
-                                while let Some(x) = s.next().await {
+                                loop {
+                                    // window lower bound, evaluated whenever the join gives control back without an item: by then it
+                                    // must have drawn from the source up to the window or until the source itself was pending
+                                    // (valid for both implementations; the spawning one fills its window across several steps)
+                                    let item = futures::future::poll_fn(|cx| {
+                                        let r = s.as_mut().poll_next(cx);
+                                        if r.is_pending() {
+                                            let mut g = st.lock().unwrap();
+                                            let inflight = g.created - g.yielded;
+                                            let avail = g.source_seen_upto.min(g.n) - g.yielded.min(g.source_seen_upto.min(g.n));
+                                            let need = g.window.min(avail);
+                                            if inflight < need && g.window_violation.is_none() {
+                                                g.window_violation = Some(format!(
+                                                    "join returned Pending with {inflight} tasks in flight (created {} - yielded {}), but window {} and the source had offered {} more inputs",
+                                                    g.created, g.yielded, g.window, avail));
+                                            }
+                                        }
+                                        r
+                                    })
+                                    .await;
+                                    let Some(x) = item else { break };
                                     st.lock().unwrap().yielded += 1;
                                     v.push(x.unwrap());
                                 }
@@ -364,7 +389,16 @@ fn judge(
                 shape, Some(outcome));
         }
         _ => {
-            return RunRes::violation("sj_panic", format!("unexpected panic: {}", outcome.panic_msg.clone().unwrap_or_default()), shape, Some(outcome));
+            // the spawning implementation cancels the tasks still in flight when the consumer stops at the first error; the
+            // cancellation marker is a panic inside the cancelled task, which tokio confines to that task while shuttle fails the
+            // whole execution: a stub artefact, counted and not judged (only after a planned error, only that message)
+            let msg = outcome.panic_msg.clone().unwrap_or_default();
+            if cfg!(feature = "multi-threading") && variant != "join" && !errs.is_empty() && (msg.contains("SequentialFutures: spawned task") || msg.contains("parallel_join: task cancelled")) && msg.contains("cancelled") {
+                let mut res = RunRes::pass(shape, true, Some(outcome));
+                res.probe("mt_cancellation_marker_panic_after_error", 1);
+                return res;
+            }
+            return RunRes::violation("sj_panic", format!("unexpected panic: {msg}"), shape, Some(outcome));
         }
     }
     let Some(result) = o.as_ref() else {
